@@ -44,6 +44,7 @@ var (
 	GI         interface{}
 	GV         N
 	GA         [3]*N
+	GX         map[string]interface{}
 )
 
 func p(n *N) *N {
@@ -129,6 +130,26 @@ func ni(n *N) interface{} {
 	}
 	return n.I
 }
+
+// setters for values built in ANOTHER realm (a MsgRun script's ephemeral realm):
+// anonymous composites allocated there are adopted by this realm when persisted.
+func SetAny(cur realm, v interface{}) { GI = v }
+
+func PutAny(cur realm, k string, v interface{}) {
+	if GX == nil {
+		GX = map[string]interface{}{}
+	}
+	GX[k] = v
+}
+
+func DropAny(cur realm, k string) { delete(GX, k) }
+
+func Adopt(cur realm, n *N) *N {
+	G2 = n
+	return G1
+}
+
+func Fresh(cur realm) *N { return &N{} }
 
 func capture(x *N) func() *N {
 	return func() *N { return x }
@@ -310,3 +331,43 @@ func GenProgram(seed uint64, pkgName string) string {
 	return g.sb.String()
 }
 
+
+// GenRunScript generates the main package of a MsgRun transaction that builds
+// values in the caller's ephemeral realm and hands them to the generated realm
+// at path (a program produced by GenProgram): slices, maps, pointers to
+// anonymous structs, arrays, nested composites, and nodes obtained from the
+// realm itself and passed back.
+func GenRunScript(seed uint64, path string) string {
+	r := kit.NewRand(seed*0x9E3779B1 + 5)
+	var sb strings.Builder
+	fmt.Fprintf(&sb, "package main\n\nimport p %q\n\nfunc main(cur realm) {\n", path)
+	n := 1 + r.Intn(4)
+	for i := 0; i < n; i++ {
+		k := kit.Pick(r, []string{"a", "b", "c"})
+		switch r.Intn(10) {
+		case 0:
+			fmt.Fprintf(&sb, "\tp.SetAny(cross(cur), []int{1, 2, %d})\n", r.Intn(100))
+		case 1:
+			fmt.Fprintf(&sb, "\tp.PutAny(cross(cur), %q, map[string]int{\"x\": %d})\n", k, r.Intn(100))
+		case 2:
+			// (a struct type declared in the script would be refused: "type defined in the private realm")
+			fmt.Fprintf(&sb, "\tp.PutAny(cross(cur), %q, &[2]int{%d, 2})\n", k, r.Intn(100))
+		case 3:
+			fmt.Fprintf(&sb, "\tp.PutAny(cross(cur), %q, [2][]string{{\"u\"}, {\"v\", \"w\"}})\n", k)
+		case 4:
+			fmt.Fprintf(&sb, "\tp.DropAny(cross(cur), %q)\n", k)
+		case 5:
+			fmt.Fprintf(&sb, "\t{\n\t\ts := [][]int{{1}, {2, 3}}\n\t\tp.PutAny(cross(cur), %q, s)\n\t\tp.SetAny(cross(cur), s)\n\t}\n", k)
+		case 6:
+			sb.WriteString("\tp.Adopt(cross(cur), p.Fresh(cross(cur)))\n")
+		case 7:
+			sb.WriteString("\tp.Adopt(cross(cur), p.Adopt(cross(cur), p.Fresh(cross(cur))))\n")
+		case 8:
+			fmt.Fprintf(&sb, "\t{\n\t\tx := %d\n\t\tp.PutAny(cross(cur), %q, &x)\n\t}\n", r.Intn(100), k)
+		default:
+			fmt.Fprintf(&sb, "\tp.T%d(cross(cur))\n", r.Intn(NFuncs))
+		}
+	}
+	sb.WriteString("}\n")
+	return sb.String()
+}
